@@ -7,9 +7,9 @@ mkdir -p $dst
 cp $wt/patch.diff $wt/demo.py $wt/meta.json $dst/ 2>/dev/null
 cd $wt
 echo "== demo with change:"; PYTHONPATH=$wt/src timeout 600 /venv/bin/python demo.py > /tmp/seed_demo_with.log 2>&1; echo "exit=$?"; tail -2 /tmp/seed_demo_with.log
-git stash -q -- src
+git apply -R patch.diff
 echo "== demo without change:"; PYTHONPATH=$wt/src timeout 600 /venv/bin/python demo.py > /tmp/seed_demo_without.log 2>&1; echo "exit=$?"; tail -1 /tmp/seed_demo_without.log
-git stash pop -q
+git apply patch.diff
 echo "== test suite with change:"; PYTHONPATH=$wt/src /venv/bin/python -m pytest -q -p no:cacheprovider --timeout=900 2>&1 | tail -1
 echo "== our checks with the change applied to /repo:"
 git -C /repo apply $dst/patch.diff || { echo "patch does not apply"; exit 1; }
